@@ -124,7 +124,7 @@ def run(eng, tier):
         ('size-below-1', 'L', lambda e: is_sign(e['fact'], M(v, 'size'), 'zero')),
         ('storage', 'I', lambda e: is_save_err(e['fact']) or is_storage_load_err(e['fact'])),
         ('class-serialisation', 'I', lambda e: e['fact'] is not None and e['fact'][0] == 'is' and e['fact'][2] == 'Err' and e['fact'][1][0] == 'call' and 'to_string' in e['fact'][1][1]),
-        ('zero-amount-pull', 'D(validate: size >= 1)', lambda e: e['fact'] is not None and e['fact'][0] == 'val' and e['fact'][1][0] == 'eq' and I(0) in e['fact'][1][1:] and M(v, 'size') in e['fact'][1][1:]),
+        ('zero-amount-pull', 'D(validate: size >= 1)', lambda e: is_sign(e['fact'], M(v, 'size'), 'zero')),
     ]
     def ab(e, kind): return e.get('abort') and e['abort'][0] == kind
     TA = [('action-name-serialisation', 'D', lambda e: ab(e, 'unwrap') and 'ContractAction' in e['key']),
